@@ -9,6 +9,7 @@
      requests (traces / callstacks / kevents, option changes in between, lists and tuples) on ONE PyKdebugParser;
      selection, order, process column and settings validated by Pipeline_Val in TLC; the text of every reported
      trace is compared with the same trace of an unfiltered run of the code."""
+import io
 import json
 import random
 
@@ -242,6 +243,35 @@ def run(ctx):
                                       % (cfg, o['k'], t, want),
                                       {'kind': 'pipeline', 'cfg': cfg, 'file_hex': dump.blob.hex(),
                                        'stream': describe(w, dump.stream)})
+        if i % 5 == 4:
+            # ANOTHER object of the caller lists another dump (same threads, other processes) while a listing of this object is
+            # in flight: every object has its own tables - the listing reads as it reads alone
+            from .pipeline import Dump as _Dump
+            other = _Dump(w, list(dump.stream[:6]), [(t_, 900 + t_, 'elsewhere') for t_ in (1, 2, 3)])
+            try:
+                ps_ = PyKdebugParser()
+                ps_.color = False
+                solo_ = [str(x) for x in ps_.formatted_traces(io.BytesIO(dump.blob))]
+                pa_ = PyKdebugParser()
+                pa_.color = False
+                it_ = iter(pa_.formatted_traces(io.BytesIO(dump.blob)))
+                got_ = []
+                for k_ in range(len(solo_) + 2):
+                    if k_ in (1, 3):
+                        pb_ = PyKdebugParser()
+                        for _x in pb_.formatted_traces(io.BytesIO(other.blob)):
+                            pass
+                    try:
+                        got_.append(str(next(it_)))
+                    except StopIteration:
+                        break
+            except Exception as ex:
+                solo_, got_ = [], ['raised %r' % ex]
+            if got_ != solo_:
+                d_ = next((k for k in range(max(len(got_), len(solo_))) if k >= len(got_) or k >= len(solo_) or got_[k] != solo_[k]), 0)
+                ctx.violation('C13/another-object-changes-listing', 'line %d reads %r; read alone %r (another PyKdebugParser object listed another dump in between)'
+                              % (d_, got_[d_] if d_ < len(got_) else None, solo_[d_] if d_ < len(solo_) else None),
+                              {'kind': 'pipeline', 'cfg': {}, 'file_hex': dump.blob.hex(), 'stream': describe(w, dump.stream)})
         if i % (8 if ctx.quick else 3) == 0:      # command line == library for the same options
             from .pipeline import cli_lines, api_lines
             cmd = rnd.choice(['traces', 'traces', 'callstacks'])
